@@ -126,8 +126,34 @@ def run(eng, rep) -> None:
             t = norm(tgt)
             if t.startswith("self."):
                 written.setdefault(t.split("[")[0], []).append("%s: %s" % (f.name, norm(st, 50)))
+    # stores through a local alias of an encoder attribute (x = self.attr; x[k] = v) count as stores to that attribute
+    for f in reach:
+        dfs = Defs(f.node)
+        for kind, tgt, st in stores_in(f.node):
+            root = tgt
+            while isinstance(root, (ast.Attribute, ast.Subscript)):
+                root = root.value
+            if isinstance(root, ast.Name) and root.id != "self":
+                r0 = resolve_local(root, dfs)
+                if self_alias(r0):
+                    written.setdefault(self_alias(r0), []).append("%s: %s" % (f.name, norm(st, 50)))
     extra = sorted(set(written) - {LIST, CUR})
-    rep.check(not extra, "R04.1", enc.file, enc.qual, "attributes written during layout: %s" % ", ".join(sorted(written)), "only the output list and the cursor",
+    # per-call state: an attribute that generate() rebinds to a fresh value before the first layout step cannot
+    # carry anything over from an earlier call
+    per_call = set()
+    if first is not None:
+        for n in walk_local(gen.node):
+            if isinstance(n, (ast.Assign, ast.AnnAssign)) and n.value is not None:
+                for t in (n.targets if isinstance(n, ast.Assign) else [n.target]):
+                    v = n.value
+                    fresh = (isinstance(v, (ast.Dict, ast.List, ast.Set)) and not (getattr(v, "elts", None) or getattr(v, "keys", None))) or isinstance(v, ast.Constant) or (isinstance(v, ast.Call) and dotted(v.func) in ("dict", "list", "set") and not v.args)
+                    nid = cfg.node_for(n)
+                    if norm(t) in extra and fresh and nid is not None and cfg.every_path_passes(first, {nid}):
+                        per_call.add(norm(t))
+    for a in sorted(per_call):
+        rep.ok("R04.1", enc.file, enc.qual, "%s rebound to a fresh value at the start of generate()" % a, "per-call state: nothing survives from an earlier call")
+    extra = [a for a in extra if a not in per_call]
+    rep.check(not extra, "R04.1", enc.file, enc.qual, "attributes written during layout: %s" % ", ".join(sorted(written)), "only the output list and the cursor (and per-call state reset by generate())",
               "layout writes other encoder state (%s): the layout of a binding can depend on earlier calls" % ", ".join(extra))
     # ---- R04.2 ----------------------------------------------------------------------
     names = {CUR: "cursor"}
@@ -253,10 +279,27 @@ def run(eng, rep) -> None:
             while isinstance(root, (ast.Attribute, ast.Subscript)):
                 root = root.value
             if isinstance(root, ast.Name) and root.id != "self" and kind in ("attr-store", "sub-store", "mutcall", "aug") and not (kind == "aug" and isinstance(tgt, ast.Name)):
+                r0 = resolve_local(root, defs)
+                if self_alias(r0):
+                    continue  # encoder state, judged by R04.1
                 vals = defs.values(root.id)
                 is_copy = bool(vals) and all(isinstance(v, ast.Call) and (dotted(v.func) or "").split(".")[-1] in ("copy", "deepcopy", "replace", "list", "sorted", "dict", "set", "tuple") for k, v, s_ in vals if k == "assign")
                 fresh = bool(vals) and all(isinstance(v, (ast.List, ast.Dict, ast.ListComp)) or (isinstance(v, ast.Call) and isinstance(eng.T.fn(f).of(v), tuple) and eng.T.fn(f).of(v)[0] == "inst") for k, v, s_ in vals if k == "assign")
                 rep.check(is_copy or fresh, "R04.6", f.file, f.qual, norm(st, 60), "writes a copy / a fresh local", "layout mutates a schema object (%s): the caller's schema changes as a side effect" % root.id)
+
+
+def self_alias(e) -> Optional[str]:
+    """`self.attr` or `self.attr if c else None` -> 'self.attr'"""
+    if isinstance(e, ast.Attribute) and norm(e).startswith("self."):
+        return norm(e)
+    if isinstance(e, ast.IfExp):
+        a, b = self_alias(e.body), self_alias(e.orelse)
+        none = lambda x: isinstance(x, ast.Constant) and x.value is None
+        if a and (b == a or none(e.orelse)):
+            return a
+        if b and none(e.body):
+            return b
+    return None
 
 
 def r047(eng, rep, enc, reach, live, arg_of) -> None:
